@@ -80,6 +80,9 @@ func (self *Transformer) Transform(tree ast.AnalyzedProgram) ast.AnalyzedProgram
 
 	output.Types = tree.Types
 	output.Imports = tree.Imports
+	// Singleton declarations and impl blocks are not transformed, but they belong to the program.
+	output.Singletons = tree.Singletons
+	output.ImplBlocks = tree.ImplBlocks
 
 	for _, glob := range tree.Globals {
 		newGlob := ast.AnalyzedLetStatement{
